@@ -68,12 +68,14 @@ CConnect ==
 \* receiver (if still there) gets the error too
 Xmit(S, m) ==
   IF S.sender \notin {"alive", "lastone"} THEN [S EXCEPT !.lost = Append(@, m)]
+  \* the server has ended the RPC: Send returns io.EOF, which is recorded as a send error like any other
+  ELSE IF S.sender = "lastone"
+       THEN [S EXCEPT !.lost = Append(@, m), !.sender = "dead", !.sendErrs = @ + 1]
   ELSE IF S.failIn = 0
        THEN [S EXCEPT !.lost = Append(@, m), !.sender = "dead", !.sendErrs = @ + 1, !.failIn = -1,
                       !.receiver = IF @ = "alive" THEN "dead" ELSE @,
                       !.recvErrs = IF S.receiver = "alive" THEN @ + 1 ELSE @]
-  ELSE [S EXCEPT !.sent = Append(@, m), !.failIn = IF @ > 0 THEN @ - 1 ELSE @,
-                 !.sender = IF S.sender = "lastone" THEN "dead" ELSE @]
+  ELSE [S EXCEPT !.sent = Append(@, m), !.failIn = IF @ > 0 THEN @ - 1 ELSE @]
 
 RECURSIVE XmitAll(_, _)
 XmitAll(S, ms) == IF ms = <<>> THEN S ELSE XmitAll(Xmit(S, Head(ms)), Tail(ms))
@@ -179,7 +181,8 @@ CRecvFail ==
   /\ recvErrs' = recvErrs + 1 /\ receiver' = "dead"
   /\ UNCHANGED <<cfg, conn, sending, sendq, sent, lost, pend, pendElec, pendParams, results, sendErrs, sender, failIn, handed>>
 
-\* clean end of the stream: no error; the sender exits after the next message it is given
+\* clean end of the stream: no error on the receive side; the next Send fails with io.EOF (as gRPC's
+\* SendMsg does on a stream the server has ended), the sender records it and exits
 CRecvEOF ==
   /\ receiver = "alive"
   /\ receiver' = "dead" /\ sender' = IF sender = "alive" THEN "lastone" ELSE sender
